@@ -117,6 +117,11 @@ func (r *rng) text(wide bool, maxLen int) string {
 
 // oscPayload: mostly short, sometimes longer than any buffer an implementation might cap it with
 func (r *rng) oscPayload(wide bool) string {
+	if r.chance(1, 6) {
+		// payloads whose first or only bytes are the bytes the terminator tests look at (backslash, ESC, the
+		// 8-bit ST inside a character, BEL look-alikes), and empty payloads (seeded change C01-m9)
+		return r.pick("\\", "\\host\\share", "\\", "", "\x1b", "\\\x1b", "\x1b\x1b", ";", ";;", "\\;x", "\xc2", "\\\\") + r.pick("", "", r.text(wide, 4))
+	}
 	if r.chance(1, 10) {
 		return strings.Repeat(r.text(wide, 12), 40+r.n(300))
 	}
